@@ -1,4 +1,7 @@
 use super::*;
+#[cfg(feature = "verif-hooks")]
+use crate::verif_hooks::{alloc, dealloc, realloc};
+#[cfg(not(feature = "verif-hooks"))]
 use alloc::alloc::{alloc, dealloc, realloc};
 use core::{alloc::Layout, hint, ptr, ptr::NonNull};
 
@@ -102,6 +105,8 @@ impl HeapBuffer {
     }
 
     pub(super) fn capacity(&self) -> usize {
+        #[cfg(feature = "verif-hooks")]
+        crate::verif_hooks::note(crate::verif_hooks::Note::HeaderRead, self.ptr.as_ptr(), 0);
         self.header().capacity.as_usize()
     }
 
@@ -120,6 +125,8 @@ impl HeapBuffer {
     pub(super) fn as_str(&self) -> &str {
         let len = self.len();
         let ptr = self.ptr.as_ptr();
+        #[cfg(feature = "verif-hooks")]
+        crate::verif_hooks::note(crate::verif_hooks::Note::InternalRead, ptr, len);
         // SAFETY: HeapBuffer contains valid `len` bytes of UTF-8 string.
         unsafe { core::str::from_utf8_unchecked(slice::from_raw_parts(ptr, len)) }
     }
@@ -351,6 +358,16 @@ impl HeapBuffer {
 
     const fn header_offset() -> usize {
         max(size_of::<Header>(), HeapBuffer::align())
+    }
+
+    /// Verification observer: plain read of the reference count in front of `data_ptr`.
+    #[cfg(feature = "verif-hooks")]
+    pub(super) unsafe fn verif_refcount_of_data_ptr(data_ptr: *const u8) -> usize {
+        let header: &Header = unsafe { &*data_ptr.sub(HeapBuffer::header_offset()).cast() };
+        #[cfg(not(loom))]
+        return header.count.load(Relaxed);
+        #[cfg(loom)]
+        return unsafe { header.count.unsync_load() };
     }
 }
 
